@@ -172,8 +172,19 @@ func (c *ChangesCursor) Next() error {
 			c.eof = true
 			return nil
 		}
+		if err != nil {
+			// a version that cannot be read fails the query instead of
+			// yielding a partial answer (or looping)
+			return fmt.Errorf("diff: %w", err)
+		}
 		if de.NewValue != nil {
-			c.currentRow = de.NewValue.(*v1proto.Row)
+			row, _ := de.NewValue.(*v1proto.Row)
+			if row == nil || row.Deleted {
+				// deleted in "to": not a row of "to" (it shows up when
+				// "from" and "to" are swapped)
+				continue
+			}
+			c.currentRow = row
 			c.currentKey = de.Key.(*s3db.Key)
 			return nil
 		}
